@@ -6,6 +6,7 @@ import (
 	"fmt"
 	"os"
 	"strings"
+	"sync"
 	"time"
 
 	"go.sia.tech/core/consensus"
@@ -29,6 +30,12 @@ type c16Case struct {
 	// Contract is the state of the contract to renew / refresh: "" (confirmed),
 	// unconfirmed (formation still pooled), unknown, renewed, expired
 	Contract string `json:"contract,omitempty"`
+	// Mid moves the chain DURING the exchange: "<point>:<blocks>:<relay>:<poke>"
+	// with point in R0|H0|sign|R1|H1 (before that message is forwarded / inside
+	// the renter's signer callback), 1..3 blocks mined on the host's node,
+	// relay host|both (also fed to the renter's node at once), poke yes|no (the
+	// first block carries a bystander transaction that changes the accumulator)
+	Mid string `json:"mid,omitempty"`
 }
 
 func (c c16Case) sig() string {
@@ -38,6 +45,9 @@ func (c c16Case) sig() string {
 	}
 	if c.Contract != "" {
 		f += "/contract-" + c.Contract
+	}
+	if c.Mid != "" {
+		f += "/mid-" + c.Mid
 	}
 	return fmt.Sprintf("%s/%s/%s/%s/%s", c.RPC, c.Phase, f, c.Basis, c.Inputs)
 }
@@ -75,6 +85,9 @@ func (c c16Case) cause() string {
 	}
 	if c.Contract != "" {
 		return "contract-" + c.Contract
+	}
+	if c.Mid != "" {
+		return "block-mid-rpc"
 	}
 	if strings.HasPrefix(c.Fault.Op, "inject:") || strings.HasPrefix(c.Fault.Op, "signer:") {
 		return c.faultPoint()
@@ -118,6 +131,7 @@ type c16Lab struct {
 	last string
 	// lastCounts are the interface calls of the last attempt (method -> count)
 	lastCounts map[string]int
+	midHook    func(m *rhpmitm.Msg)
 }
 
 type econ struct{ host, renter types.Currency }
@@ -476,7 +490,57 @@ func (x *c16Lab) attempt(cse c16Case, noCleanup bool) (succeeded bool) {
 	var emittedR1 bool
 	var fee types.Currency
 	var renterInputsUnconfirmed bool
+	var midOnce sync.Once
+	var midMu sync.Mutex
+	var midBlocks []types.Block
+	var midErr error
+	midPoint, midRelayBoth := "", false
+	if cse.Mid != "" {
+		parts := strings.Split(cse.Mid, ":")
+		if len(parts) != 4 {
+			x.fail("mid spec", fmt.Errorf("bad spec %q", cse.Mid))
+			return
+		}
+		midPoint, midRelayBoth = parts[0], parts[2] == "both"
+		depth := 1
+		fmt.Sscanf(parts[1], "%d", &depth)
+		poke := parts[3] == "poke"
+		mineMid := func() {
+			midOnce.Do(func() {
+				var err error
+				if poke {
+					err = l.Poke()
+				}
+				var blocks []types.Block
+				if err == nil {
+					blocks, err = l.HostNode.MineTo(types.VoidAddress, depth)
+				}
+				if err == nil {
+					err = l.Relay(blocks, midRelayBoth)
+				}
+				midMu.Lock()
+				midBlocks, midErr = blocks, err
+				midMu.Unlock()
+				r.Count("blocks_mined_mid_rpc", len(blocks))
+				r.Count("mid_rpc_points_hit:"+midPoint, 1)
+			})
+		}
+		if midPoint == "sign" {
+			l.Signer.OnSign = mineMid
+			defer func() { l.Signer.OnSign = nil }()
+		}
+		x.midHook = func(m *rhpmitm.Msg) {
+			if midPoint == fmt.Sprintf("%s%d", m.Dir, m.Index) && !m.Synthetic {
+				mineMid()
+			}
+		}
+	} else {
+		x.midHook = nil
+	}
 	ap.extraFun = func(m *rhpmitm.Msg) {
+		if x.midHook != nil {
+			x.midHook(m)
+		}
 		if m.Dir != rhpmitm.RenterToHost {
 			return
 		}
@@ -524,6 +588,7 @@ func (x *c16Lab) attempt(cse c16Case, noCleanup bool) (succeeded bool) {
 		l.Signer.FeeOverride = &types.ZeroCurrency
 		l.T.SetHook(faultHook(nil, nil, nil, ap))
 	}
+	tipBeforeCall := l.HostNode.CM.Tip()
 	l.Inj.Begin(injMethod, injOcc)
 	deadline := callDeadline
 	if cse.Fault.Op == "silent" {
@@ -544,6 +609,20 @@ func (x *c16Lab) attempt(cse c16Case, noCleanup bool) (succeeded bool) {
 		x.fail("barrier", err)
 		return
 	}
+	midMu.Lock()
+	if midErr != nil {
+		midMu.Unlock()
+		x.fail("mining mid-RPC", midErr)
+		return
+	}
+	if !midRelayBoth {
+		hostOnly = append(hostOnly, midBlocks...)
+	}
+	nMid := len(midBlocks)
+	midMu.Unlock()
+	if cse.Mid != "" && nMid == 0 {
+		r.Count("mid_rpc_point_not_reached", 1)
+	}
 	counts, _, fired := l.Inj.End()
 	x.lastCounts = counts
 	if injMethod != "" {
@@ -558,7 +637,9 @@ func (x *c16Lab) attempt(cse c16Case, noCleanup bool) (succeeded bool) {
 	hit, changed := ap.Hit, ap.Changed
 	sawR1, feeSeen, unconf := emittedR1, fee, renterInputsUnconfirmed
 	ap.mu.Unlock()
-	if cse.Fault.Op == "none" || cse.Fault.Op == "dial-fail" || changed > 0 || (injMethod != "" && fired) || strings.HasPrefix(cse.Fault.Op, "signer:") {
+	if cse.Mid != "" && nMid == 0 {
+		// the exchange ended before the point: nothing moved
+	} else if cse.Fault.Op == "none" || cse.Fault.Op == "dial-fail" || changed > 0 || (injMethod != "" && fired) || strings.HasPrefix(cse.Fault.Op, "signer:") {
 		r.Distinct(cse.sig())
 	} else if hit == 0 {
 		r.Count("fault_site_not_reached", 1)
@@ -665,6 +746,12 @@ func (x *c16Lab) attempt(cse c16Case, noCleanup bool) (succeeded bool) {
 			residue = true
 		}
 		hostPre, rentPre = hostWant, rentWant
+		if nMid > 0 {
+			// the chain grew during the attempt: immature outputs may have matured
+			// meanwhile, so the spendable set may only have grown - everything
+			// that was spendable before must still be
+			hostPost, rentPost = hostPost.RestrictTo(hostPre), rentPost.RestrictTo(rentPre)
+		}
 		if !hostPost.EqualModuloUnconfirmed(hostPre) || len(hostLeak) > 0 {
 			viol("host-inputs-not-released", "after a failed attempt the host wallet's spendable set differs from before / funded inputs were never released", map[string]any{"before": hostPre, "after": hostPost, "reserved_not_released": hostLeak, "calls": l.HostWallet.Calls()})
 		}
@@ -701,8 +788,40 @@ func (x *c16Lab) attempt(cse c16Case, noCleanup bool) (succeeded bool) {
 			l.HostNode.CM.AddV2PoolTransactions(l.RenterNode.CM.Tip(), txns)
 		}
 	}
-	before := l.HostNode.CM.Tip()
-	for i := 0; i < 3 && (i == 0 || len(l.HostNode.CM.V2PoolTransactions()) > 0 || len(l.RenterNode.CM.V2PoolTransactions()) > 0); i++ {
+	before := tipBeforeCall // blocks mined mid-RPC may already hold the contract
+	if l.Observer != nil {
+		// (blocks mined mid-RPC were relayed to the observer when they were mined)
+		basisBlocks := hostOnly
+		if !midRelayBoth && nMid > 0 {
+			basisBlocks = hostOnly[:len(hostOnly)-nMid]
+		}
+		if err := l.Observer.AddBlocks(basisBlocks); err != nil || l.Observer.CM.Tip() != l.HostNode.CM.Tip() {
+			x.fail("observer re-converge", fmt.Errorf("%v (observer %v host %v)", err, l.Observer.CM.Tip(), l.HostNode.CM.Tip()))
+			return
+		}
+		if ok {
+			// the judge: a pool nobody has touched, at the current tip, that knows
+			// every block including the claimed basis
+			if _, err := l.Observer.CM.AddV2PoolTransactions(res.Set.Basis, res.Set.Transactions); err != nil {
+				viol("success-set-rejected-by-independent-pool", "both sides report success, but an independent pool at the current tip rejects the (basis, transaction set) pair the renter's call returned: "+err.Error(), map[string]any{"returned_basis": res.Set.Basis, "tip": l.Observer.CM.Tip(), "transactions": len(res.Set.Transactions)})
+			} else {
+				r.Count("sets_accepted_by_independent_pool", 1)
+				// ... and it is that pool's copy that gets mined
+				blocks, err := l.Observer.MineTo(types.VoidAddress, 1)
+				if err == nil {
+					err = l.HostNode.AddBlocks(blocks)
+				}
+				if err == nil && l.RenterNode != l.HostNode {
+					err = l.RenterNode.AddBlocks(blocks)
+				}
+				if err != nil {
+					x.fail("confirming from the independent pool", err)
+					return
+				}
+			}
+		}
+	}
+	for i := 0; i < 3 && (i == 0 && (l.Observer == nil || !ok) || len(l.HostNode.CM.V2PoolTransactions()) > 0 || len(l.RenterNode.CM.V2PoolTransactions()) > 0); i++ {
 		if err := l.Mine(types.VoidAddress, 1); err != nil {
 			x.fail("confirm", err)
 			return
@@ -870,18 +989,18 @@ func (x *c16Lab) corruptTable(inputs string) []mutation {
 	return out2
 }
 
-func newC16Lab(r *mon.Run, rpc string, stream uint64, only *c16Case) (*c16Lab, error) {
+func newC16Lab(r *mon.Run, rpc string, stream uint64, only *c16Case, third bool) (*c16Lab, error) {
 	x := &c16Lab{r: r, rpc: rpc, only: only}
 	f := &family{r: r, rng: r.RNG(stream)}
 	if rpc == "form" {
-		l, err := rhpmitm.NewLab(rhpmitm.Options{TwoNodes: true, HostBlocks: 24, RenterBlocks: 12})
+		l, err := rhpmitm.NewLab(rhpmitm.Options{TwoNodes: true, HostBlocks: 24, RenterBlocks: 12, Observer: third, Bystander: third})
 		if err != nil {
 			return nil, err
 		}
 		x.l = l
 		return x, nil
 	}
-	pool, err := newSparePoolOpt(f, 6, rhpmitm.Options{TwoNodes: true, HostBlocks: 30, RenterBlocks: 12})
+	pool, err := newSparePoolOpt(f, 6, rhpmitm.Options{TwoNodes: true, HostBlocks: 30, RenterBlocks: 12, Observer: third, Bystander: third})
 	if err != nil {
 		return nil, err
 	}
@@ -934,7 +1053,7 @@ func (x *c16Lab) releaseAll() {
 }
 
 func runC16(r *mon.Run, replay string) {
-	r.Rule("fault table = RPC {form, renew, refresh-full, refresh-partial} x abort point {clean, stream cannot be opened, cut before/after the request, cut before/after the host inputs, injected RPCError, cut before/after the renter signatures, cut before/after / truncated final response, silent host, renter signatures swallowed} x basis relation {same tip, renter 1..3 blocks behind, renter on a stale fork of depth 1..3 unknown to / known by the host} x renter inputs {confirmed, one unconfirmed output with its parent}; plus every field of every message in both directions (reflection walk) x operator {flip low/high bit, zero, max, +1, -1, truncate, extend, duplicate, swap neighbours, nil pointer, other resolution type} at the same tip; plus renew/refresh of a contract that is still unconfirmed / unknown to the host / already renewed / expired; plus interface-failure injection: the k-th call of every error-returning method the client and the handlers invoke on the interfaces they were given (host chain manager V2TransactionSet/AddV2PoolTransactions/UpdateV2TransactionSet, contractor LockV2Contract/V2FileContractElement/AddV2Contract/RenewV2Contract, host wallet FundV2Transaction/BroadcastV2TransactionSet, the wallet's syncer, renter pool V2TransactionSet, renter wallet FundV2Transaction) fails, method x occurrence enumerated from a clean attempt of the same shape (confirmed/unconfirmed inputs x same tip/renter one block behind), each followed by a clean attempt, plus a signer that recommends a zero fee; plus storms of 20 consecutive aborts at one abort point followed by a clean attempt; thorough adds every abort point at every basis relation, the field table for the message shapes with an unconfirmed renter parent, and PRNG double corruptions. Two chain managers (host, renter) are kept in sync by the lab except where the basis relation says otherwise. Enumerated completely; a case is non-trivial when it is a clean/abort case or its corruption changed the wire bytes.")
+	r.Rule("fault table = RPC {form, renew, refresh-full, refresh-partial} x abort point {clean, stream cannot be opened, cut before/after the request, cut before/after the host inputs, injected RPCError, cut before/after the renter signatures, cut before/after / truncated final response, silent host, renter signatures swallowed} x basis relation {same tip, renter 1..3 blocks behind, renter on a stale fork of depth 1..3 unknown to / known by the host} x renter inputs {confirmed, one unconfirmed output with its parent}; plus every field of every message in both directions (reflection walk) x operator {flip low/high bit, zero, max, +1, -1, truncate, extend, duplicate, swap neighbours, nil pointer, other resolution type} at the same tip; plus renew/refresh of a contract that is still unconfirmed / unknown to the host / already renewed / expired; plus interface-failure injection: the k-th call of every error-returning method the client and the handlers invoke on the interfaces they were given (host chain manager V2TransactionSet/AddV2PoolTransactions/UpdateV2TransactionSet, contractor LockV2Contract/V2FileContractElement/AddV2Contract/RenewV2Contract, host wallet FundV2Transaction/BroadcastV2TransactionSet, the wallet's syncer, renter pool V2TransactionSet, renter wallet FundV2Transaction) fails, method x occurrence enumerated from a clean attempt of the same shape (confirmed/unconfirmed inputs x same tip/renter one block behind), each followed by a clean attempt, plus a signer that recommends a zero fee; plus a chain that moves DURING the exchange: before each message is forwarded (R0, H0, R1, H1) or inside the renter's signer callback, 1..3 blocks are mined on the host's node (fed to the renter's node at once or only afterwards), the first one optionally carrying a bystander transaction, and the success oracle is evaluated by an INDEPENDENT third node: its untouched pool must accept the returned (basis, set) pair at the current tip and its block must create exactly the returned contract; plus storms of 20 consecutive aborts at one abort point followed by a clean attempt; thorough adds every abort point at every basis relation, the field table for the message shapes with an unconfirmed renter parent, and PRNG double corruptions. Two chain managers (host, renter) are kept in sync by the lab except where the basis relation says otherwise. Enumerated completely; a case is non-trivial when it is a clean/abort case or its corruption changed the wire bytes.")
 	r.Assume("core consensus and rhp/v4 cost functions are trusted; the in-repo EphemeralContractor/WalletStore are the host's and wallets' stores")
 	r.Assume("a failure seen by the renter after its signatures reached the host may legitimately coincide with a host-side commit (the final response cannot be made atomic); it is then checked as a host-side success")
 	r.Extra("exhaustive", true)
@@ -965,7 +1084,7 @@ func runC16(r *mon.Run, replay string) {
 	}
 	var jobs []job
 	for _, rpc := range rpcs {
-		for _, part := range []string{"abort-same", "abort-basis-a", "abort-basis-b", "corrupt-R0", "corrupt-R1", "corrupt-H0", "corrupt-H1a", "corrupt-H1b", "corrupt-R0u", "corrupt-H1u", "corrupt-double", "storm", "inject", "contract-state"} {
+		for _, part := range []string{"abort-same", "abort-basis-a", "abort-basis-b", "corrupt-R0", "corrupt-R1", "corrupt-H0", "corrupt-H1a", "corrupt-H1b", "corrupt-R0u", "corrupt-H1u", "corrupt-double", "storm", "inject", "contract-state", "mid-rpc-host", "mid-rpc-both"} {
 			if only != nil && only.RPC != rpc {
 				continue
 			}
@@ -984,7 +1103,7 @@ func runC16(r *mon.Run, replay string) {
 	vcli.Parallel(len(jobs), func(i int) {
 		j := jobs[i]
 		t0 := time.Now()
-		x, err := newC16Lab(r, j.rpc, uint64(2000+i), only)
+		x, err := newC16Lab(r, j.rpc, uint64(2000+i), only, strings.HasPrefix(j.part, "mid-rpc"))
 		if err != nil {
 			harnessFail(r, "C16 lab "+j.rpc, err)
 			return
@@ -1044,6 +1163,23 @@ func runC16(r *mon.Run, replay string) {
 				}
 				x.attempt(c16Case{RPC: j.rpc, Fault: a, Fault2: &b, Basis: "same", Inputs: "confirmed", Phase: "corrupt"}, false)
 				r.Count("double_corruptions", 1)
+			}
+		case "mid-rpc-host", "mid-rpc-both":
+			// the chain moves DURING the exchange; nobody corrupts anything. The
+			// lab has an independent observer node and a bystander wallet.
+			relay := strings.TrimPrefix(j.part, "mid-rpc-")
+			for _, inputs := range []string{"confirmed", "unconfirmed"} {
+				for _, point := range []string{"R0", "H0", "sign", "R1", "H1"} {
+					for depth := 1; depth <= 3; depth++ {
+						for _, poke := range []string{"poke", "plain"} {
+							if inputs == "unconfirmed" && !r.Thorough() && !(depth == 1 && poke == "poke") {
+								continue
+							}
+							mid := fmt.Sprintf("%s:%d:%s:%s", point, depth, relay, poke)
+							x.attempt(c16Case{RPC: j.rpc, Fault: mutation{Op: "none"}, Basis: "same", Inputs: inputs, Phase: "mid-rpc", Mid: mid}, false)
+						}
+					}
+				}
 			}
 		case "contract-state":
 			// renew / refresh of a contract the host cannot (or must not) renew:
@@ -1110,6 +1246,11 @@ func runC16(r *mon.Run, replay string) {
 		r.Floor("basis_relation:fork", 50)
 		r.Floor("basis_relation:fork-known", 50)
 		r.Floor("injected_interface_failures", 150)
+		r.Floor("blocks_mined_mid_rpc", 400)
+		r.Floor("sets_accepted_by_independent_pool", 150)
+		for _, p := range []string{"R0", "H0", "sign", "R1", "H1"} {
+			r.Floor("mid_rpc_points_hit:"+p, 40)
+		}
 		r.Floor("contract_state:unconfirmed", 6)
 		r.Floor("contract_state:renewed", 6)
 		r.Floor("contract_state:expired", 6)
